@@ -34,7 +34,8 @@ def _is_load_call(n):
 
 class _D(Domain):
     def resolve_call(self, st, call, walker):
-        return None
+        # private helpers extracted from the analysed code are followed
+        return walker.resolve_helper(st, call)
 
 
 def run(program, rep, tier):
